@@ -751,3 +751,99 @@ Proof.
   intros lg A B H l Hl. destruct l as [|x l]; [exact I|].
   destruct (Hl x (or_introl eq_refl)) as [Hr Hb]. rewrite (H _ _ Hr) in Hb. discriminate.
 Qed.
+
+(* ---------- a sufficient condition for the walk hypothesis (fits_any) ---------- *)
+Lemma tbl_full_small : forall lg n, lg <= 26 -> 32 * n < 3 * 2 ^ lg -> tbl_full lg n = false.
+Proof.
+  intros lg n Hl Hn. unfold tbl_full, tbl_max_lg.
+  change (zN GenCpc.UPSIZE_NUMERATOR) with 3. change (zN GenCpc.UPSIZE_DENOMINATOR) with 4.
+  change PT_MAXLG with 26. change PT_VALID with 6. change PT_PLUS with 1.
+  apply N.ltb_ge.
+  assert (2 ^ lg <= 2 ^ N.min 26 (6 + lg - 1)) by (apply N.pow_le_mono_r; lia).
+  lia.
+Qed.
+
+Lemma popcount_incl : forall a b, (forall c, N.testbit a c = true -> N.testbit b c = true) -> popcount a <= popcount b.
+Proof.
+  intros a b H. assert (E : N.lor a b = b).
+  { apply N.bits_inj. intros c. rewrite N.lor_spec. destruct (N.testbit a c) eqn:Ea; [rewrite (H c Ea)|]; reflexivity. }
+  rewrite <- E. apply popcount_lor_l.
+Qed.
+
+(* two predicates that differ at most at one element of a duplicate-free list *)
+Lemma filter_one_more : forall (P Q : N -> bool) x l, NoDup l -> (forall y, In y l -> y <> x -> Q y = P y) ->
+  (length (filter Q l) <= length (filter P l) + 1)%nat.
+Proof.
+  intros P Q x l ND. induction ND as [|a l Hn ND IH]; intros H; cbn [filter]; [lia|].
+  destruct (N.eq_dec a x) as [->|Hne].
+  - assert (E : filter Q l = filter P l).
+    { apply filter_ext_in. intros y Hy. apply H; [right; exact Hy|]. intros ->. contradiction. }
+    rewrite E. destruct (Q x), (P x); cbn [length]; lia.
+  - rewrite (H a (or_introl eq_refl) Hne).
+    assert (IH' := IH (fun y Hy => H y (or_intror Hy))). destruct (P a); cbn [length]; lia.
+Qed.
+
+Lemma load_sparse_step : forall lg M x, x / 64 < 2 ^ lg ->
+  load lg (spec_update M x) false 0 + pop_rows M (Knat lg) <= load lg M false 0 + pop_rows (spec_update M x) (Knat lg).
+Proof.
+  intros lg M x Hx. rewrite (pop_rows_step M x) by (rewrite Knat_N; exact Hx).
+  destruct (N.testbit (M (x / 64)) (x mod 64)) eqn:E.
+  - assert (EL : load lg (spec_update M x) false 0 = load lg M false 0).
+    { unfold load. f_equal. f_equal. apply filter_ext. intros y. unfold surp. rewrite (spec_update_same M x E). reflexivity. }
+    rewrite EL. lia.
+  - unfold load.
+    pose proof (filter_one_more (surp M false 0) (surp (spec_update M x) false 0) x (positions lg) (positions_NoDup lg)) as F.
+    assert (G : forall y, In y (positions lg) -> y <> x -> surp (spec_update M x) false 0 y = surp M false 0 y).
+    { intros y _ Hy. unfold surp. rewrite spec_update_bit.
+      destruct (y / 64 =? x / 64) eqn:E1; [|rewrite orb_false_r; reflexivity].
+      destruct (y mod 64 =? x mod 64) eqn:E2; [|rewrite orb_false_r; reflexivity].
+      exfalso. apply Hy. apply N.eqb_eq in E1. apply N.eqb_eq in E2.
+      rewrite <- (rc_recompose y), <- (rc_recompose x). rewrite E1, E2. reflexivity. }
+    specialize (F G). lia.
+Qed.
+
+Lemma fits_stream_sparse : forall lg B U l M, lg <= 26 ->
+  (forall r c, N.testbit (M r) c = true -> N.testbit (U r) c = true) ->
+  (forall r c, N.testbit (B r) c = true -> N.testbit (U r) c = true) ->
+  load lg M false 0 <= pop_rows M (Knat lg) ->
+  32 * pop_rows U (Knat lg) < 3 * 2 ^ lg ->
+  (forall x, In x l -> x / 64 < 2 ^ lg /\ N.testbit (B (x / 64)) (x mod 64) = true) ->
+  fits_stream lg M l.
+Proof.
+  intros lg B U l. induction l as [|x l IH]; intros M Hlg HM HB HL HU Hl; cbn [fits_stream]; [exact I|].
+  destruct (Hl x (or_introl eq_refl)) as [Hx Hb].
+  assert (HM' : forall r c, N.testbit (spec_update M x r) c = true -> N.testbit (U r) c = true).
+  { intros r c. rewrite spec_update_bit. intros H. apply orb_true_iff in H. destruct H as [H|H]; [apply HM; exact H|].
+    apply andb_true_iff in H. destruct H as [H1 H2]. apply N.eqb_eq in H1. apply N.eqb_eq in H2. subst r c. apply HB. exact Hb. }
+  assert (HP : pop_rows (spec_update M x) (Knat lg) <= pop_rows U (Knat lg)).
+  { apply pop_rows_le. intros i _. apply popcount_incl. intros c. apply HM'. }
+  assert (HL' : load lg (spec_update M x) false 0 <= pop_rows (spec_update M x) (Knat lg)).
+  { pose proof (load_sparse_step lg M x Hx). lia. }
+  split.
+  - split.
+    + intros _. apply tbl_full_small; [exact Hlg|]. lia.
+    + intros C. lia.
+  - apply IH; try assumption. intros y Hy. apply Hl. right. exact Hy.
+Qed.
+
+(* a sufficient condition for the walk hypothesis of the union theorems (usteps_fit): if the union of the two
+   matrices is still in the sparse range (C < 3K/32), no order of walking pairs of B into a sketch of A can outgrow the
+   table: in sparse mode the table holds exactly the coupons, and 3K/32 is below every table's capacity *)
+Lemma fits_any_sparse : forall lg A B, lg <= 26 ->
+  load lg A false 0 <= pop_rows A (Knat lg) ->
+  32 * pop_rows (mor A B) (Knat lg) < 3 * 2 ^ lg ->
+  fits_any lg A B.
+Proof.
+  intros lg A B Hlg HL HU l Hl.
+  apply (fits_stream_sparse lg B (mor A B) l A Hlg); try assumption.
+  - intros r c H. rewrite mor_bit, H. reflexivity.
+  - intros r c H. rewrite mor_bit, H. apply orb_true_r.
+Qed.
+
+Lemma load_zero : forall lg M wd, (forall r c, N.testbit (M r) c = false) -> wd = false -> load lg M wd 0 = 0.
+Proof.
+  intros lg M wd H ->. unfold load.
+  assert (E : filter (surp M false 0) (positions lg) = []).
+  { induction (positions lg) as [|y t IH]; [reflexivity|]. cbn [filter]. unfold surp at 1. rewrite H. exact IH. }
+  rewrite E. reflexivity.
+Qed.
